@@ -128,12 +128,21 @@ def obligations():
                          Ob('O2.2-dce-declarations-if', 'same: if / else', ob_dce_declarations, ('quick', 'thorough'), 20, dict(nstmts=1, depth=1, forms=('atom', 'call', 'div')))]
 
 # ----------------------------------------------------------------------------- O2.3 import pruning keeps exactly the imports the remaining code uses
-IMPORT_PATHS = ('fmt', 'math/bits', 'unicode/utf8', 'a/b/c')
-POS_23 = ('expr-stmt', 'vardecl', 'return', 'if-cond', 'if-then', 'if-else', 'loop', 'call-arg', 'binop', 'switch-case', 'method', 'unused')
+IMPORT_PATHS = ('math/bits', 'unicode/utf8', 'fmt', 'a/b/c')      # real packages first: the first witness of a finding is then one the CLI replay can show
+POS_23 = ('expr-stmt', 'vardecl', 'return', 'if-cond', 'if-then', 'if-else', 'loop', 'call-arg', 'binop', 'switch-case', 'method', 'type-alias', 'unused')
 def go_binding(path, alias): return alias if alias is not None else path.rsplit('/', 1)[-1]
 
 def replay_imports(path, alias, pos):
     """real CLI: an extern function from the package, called from main; the emitted Go must import the package iff it uses it"""
+    if pos == 'type-alias':
+        src = 'extern type Duration\nextern "go" "time" "Duration" duration(nanos: int32) -> Duration\nfn main() -> unit { string_println("a") }\n'
+        d = tempfile.mkdtemp(prefix='vf-c02i-')
+        try:
+            open(os.path.join(d, 'main.gom'), 'w').write(src)
+            p = subprocess.run([build.compiler_bin(), 'run', '--dump-go', os.path.join(d, 'main.gom')], capture_output=True, text=True, timeout=60)
+        finally: shutil.rmtree(d, ignore_errors=True)
+        go = p.stdout; uses = 'time.Duration' in go; imports = '"time"' in go
+        return uses != imports, 'goml `%s`: the emitted Go %s `time.Duration` and %s "time"' % (src.replace('\n', ' | '), 'names' if uses else 'does not name', 'imports' if imports else 'does not import')
     if alias is not None or path in ('a/b/c',): return True, 'import specs with an alias / of an invented package cannot be written in goml source; verdict of the real prune_unused_imports MIR'
     fn = {'fmt': ('Sprint', 'x: int32', 'string', '1'), 'math/bits': ('Reverse32', 'x: uint32', 'uint32', '1u32'), 'unicode/utf8': ('RuneCountInString', 's: string', 'int32', '"a"')}[path]
     src = 'extern "go" "%s" "%s" ext_f(%s) -> %s\nfn main() -> unit { let r = ext_f(%s); let _ = r; () }\n' % (path, fn[0], fn[1], fn[2], fn[3])
@@ -150,10 +159,11 @@ def ob_import_pruning(r, tier, seed):
     W = e2.fresh_world(CRATES); tt = W.tt
     GE = tt.find_adt(['goast', 'Expr'], 'compiler'); GS = tt.find_adt(['goast', 'Stmt'], 'compiler'); GT = tt.find_adt(['goty', 'GoType'], 'compiler'); BL = tt.find_adt(['goast', 'Block'], 'compiler')
     GB = tt.find_adt(['goast', 'GoBinaryOp'], 'compiler'); IT = tt.find_adt(['goast', 'Item'], 'compiler'); FI = tt.find_adt(['goast', 'File'], 'compiler'); FN = tt.find_adt(['goast', 'Fn'], 'compiler')
+    TA = tt.find_adt(['goast', 'TypeAlias'], 'compiler')
     ID = tt.find_adt(['goast', 'ImportDecl'], 'compiler'); IS = tt.find_adt(['goast', 'ImportSpec'], 'compiler'); ST = tt.find_adt(['goast', 'Struct'], 'compiler'); ME = tt.find_adt(['goast', 'Method'], 'compiler'); RC = tt.find_adt(['goast', 'Receiver'], 'compiler')
-    r.bounds = 'a Go file with one import declaration of two specs (paths among %s, the first optionally with the alias `q`) and one function / method whose body calls `<binding>.F(1)` of the first spec at one of the positions %s (`unused`: no call); the second spec (fmt or math/bits) is never used' % (list(IMPORT_PATHS), list(POS_23))
+    r.bounds = 'a Go file with one import declaration of two specs (paths among %s, the first optionally with the alias `q`) and one function / method whose body calls `<binding>.F(1)` of the first spec at one of the positions %s (`type-alias`: no call, but a declaration `type D = <binding>.T`; `unused`: no use); the second spec (fmt or math/bits) is never used' % (list(IMPORT_PATHS), list(POS_23))
     r.assumptions = ['Go binds an import to its alias or, without one, to the last element of its path (the package name is assumed to equal that element, as for the standard library)',
-                     'oracle: go::dce::prune_unused_imports keeps an import spec iff some remaining call uses its binding (Go rejects both an unused import and an undefined package name)']
+                     'oracle: go::dce::prune_unused_imports keeps an import spec iff some remaining call or type declaration uses its binding (Go rejects both an unused import and an undefined package name)']
     T = lambda n='TInt32': Agg(GT.key, GT.vindex(n), [])
     E = lambda n, **kw: Agg(GE.key, GE.vindex(n), [kw[f[0]] for f in GE.variants[GE.vindex(n)].fields])
     S = lambda n, **kw: Agg(GS.key, GS.vindex(n), [kw[f[0]] for f in GS.variants[GS.vindex(n)].fields])
@@ -174,7 +184,7 @@ def ob_import_pruning(r, tier, seed):
                  'loop': [S('Loop', body=block([expr_stmt(call), Agg(GS.key, GS.vindex('Break'), [])]))], 'call-arg': [expr_stmt(local)],
                  'binop': [S('VarDecl', name=mkstr('v'), ty=T(), value=ms.some(E('BinaryOp', op=Agg(GB.key, GB.vindex('Add'), []), lhs=mkbox(one), rhs=mkbox(call), ty=T())))],
                  'switch-case': [S('SwitchExpr', expr=one, cases=PyVec([Agg('tuple', 0, [one, block([expr_stmt(call)])])]), default=ms.NONE())],
-                 'method': [expr_stmt(call)], 'unused': [S('Return', expr=ms.some(one))]}[pos]
+                 'method': [expr_stmt(call)], 'type-alias': [S('Return', expr=ms.some(one))], 'unused': [S('Return', expr=ms.some(one))]}[pos]
         spec = lambda p_, a_: Agg(IS.key, 0, [ms.some(mkstr(a_)) if a_ is not None else ms.NONE(), mkstr(p_)])
         imp = Agg(IT.key, IT.vindex('Import'), [Agg(ID.key, 0, [PyVec([spec(path, alias), spec(other, None)])])])
         if pos == 'method':
@@ -183,7 +193,10 @@ def ob_import_pruning(r, tier, seed):
             item = Agg(IT.key, IT.vindex('Struct'), [Agg(ST.key, 0, [{'name': mkstr('S'), 'fields': PyVec([]), 'methods': PyVec([m])}[f[0]] for f in ST.variants[0].fields])])
         else:
             item = Agg(IT.key, IT.vindex('Fn'), [Agg(FN.key, 0, [{'name': mkstr('f'), 'params': PyVec([]), 'ret_ty': ms.some(T()), 'body': block(stmts)}[f[0]] for f in FN.variants[0].fields])])
-        out = ex.call('go::dce::prune_unused_imports', [Agg(FI.key, 0, [PyVec([imp, item])])])
+        items = [imp, item]
+        if pos == 'type-alias':      # `type D = <binding>.T`: the only use of the package is a type name
+            items.append(Agg(IT.key, IT.vindex('TypeAlias'), [Agg(TA.key, 0, [{'name': mkstr('D'), 'ty': Agg(GT.key, GT.vindex('TName'), [mkstr(b + '.T')])}[f[0]] for f in TA.variants[0].fields])]))
+        out = ex.call('go::dce::prune_unused_imports', [Agg(FI.key, 0, [PyVec(items)])])
         kept = []
         for it in out.fields[0].items:
             if IT.variants[it.idx].name == 'Import':
@@ -198,11 +211,11 @@ def ob_import_pruning(r, tier, seed):
         path, alias, pos, other, kept = p.value; r.nontrivial += 1
         want = [path] if pos != 'unused' else []
         if kept != want:
-            key = 'used-import-pruned' if (path in want and path not in kept) else 'unused-import-kept'
+            key = ('used-import-pruned' if (path in want and path not in kept) else 'unused-import-kept') + (':type-alias' if pos == 'type-alias' else '')
             if any(f.key == key for f in r.findings): continue
             try: ok_, detail = replay_imports(path, alias, pos)
             except Exception as e_: ok_, detail = False, 'replay failed: %s' % str(e_)[:160]
-            r.findings.append(Finding(key, 'import "%s"%s with a call `%s.F(1)` at position %s (second import "%s" unused): prune_unused_imports keeps %s, expected %s' % (path, ' as q' if alias else '', go_binding(path, alias), pos, other, kept, want), {'path': path, 'alias': alias, 'position': pos}, ok_, detail))
+            r.findings.append(Finding(key, 'import "%s"%s with %s (second import "%s" unused): prune_unused_imports keeps %s, expected %s' % (path, ' as q' if alias else '', ('a call `%s.F(1)` at position %s' % (go_binding(path, alias), pos)) if pos != 'type-alias' else 'the declaration `type D = %s.T` as its only use' % go_binding(path, alias), other, kept, want), {'path': path, 'alias': alias, 'position': pos}, ok_, detail))
         elif len(r.samples) < 3: r.samples.append({'import': path, 'alias': alias, 'position': pos, 'kept': kept})
 
 _c02_obl2 = obligations
